@@ -1,6 +1,7 @@
 package main
 
 import (
+	"strings"
 	"fmt"
 	"go/token"
 	"go/types"
@@ -41,6 +42,10 @@ func init() {
 			"\tif s.role == RoleClient && f.IsMasked() {\n\t\treturn ErrMaskedFramesFromServer\n\t}\n", "", "C15-R2"},
 		mutant{"handlers run before verification", "codec/websocket/stream.go",
 			"\terr = s.verifyFrame(f)\n\n\tif err == nil {\n\t\tif f.Opcode().IsControl() {", "\terr = s.verifyFrame(f)\n\n\tif true {\n\t\tif f.Opcode().IsControl() {", "C15-R2"},
+		mutant{"violations swallowed once closing", "codec/websocket/stream.go",
+			"\tif err != nil && s.state == StateActive {\n\t\t// Only start the closing handshake if we did not already send a close frame: at most one goes on the wire.\n\t\ts.state = StateClosedByUs\n\t\t// TODO consider flushing the close\n\t\ts.prepareClose(EncodeCloseFramePayload(CloseProtocolError, \"\"))\n\t}\n\n\treturn err", "\tif err == nil || s.state != StateActive {\n\t\treturn nil\n\t}\n\n\ts.state = StateClosedByUs\n\ts.prepareClose(EncodeCloseFramePayload(CloseProtocolError, \"\"))\n\n\treturn err", "C15-R3"},
+		mutant{"decoder reports reserved bits itself", "codec/websocket/frame_codec.go",
+			"\t// read the extended payload length (0, 2 or 8 bytes) and check if within bounds\n", "\tif c.decodeFrame.IsRSV1() || c.decodeFrame.IsRSV2() || c.decodeFrame.IsRSV3() {\n\t\tc.decodeFrame = nil\n\t\treturn nil, ErrNonZeroReservedBits\n\t}\n", "C15-R3"},
 		mutant{"async frames bypass handleFrame", "codec/websocket/stream.go",
 			"\t\tif err == nil {\n\t\t\terr = s.handleFrame(f)\n\n\t\t\t// If we get an EOF error, TCP stream was closed", "\t\tif err == nil {\n\t\t\terr = nil\n\n\t\t\t// If we get an EOF error, TCP stream was closed", "C15-R2"},
 		mutant{"violation queues close 1000", "codec/websocket/stream.go",
@@ -430,7 +435,7 @@ func runC15(c *Ctx) {
 	}
 
 	// ------------------------------------------------------------------------------------------------ R3
-	c.rule("C15-R3", "a verification error in StateActive queues Close(1002) and leaves StateActive", 1)
+	c.rule("C15-R3", "a verification error in StateActive queues Close(1002) and leaves StateActive; it is returned in every state; framing violations are raised only by the checks under handleFrame", 8)
 	{
 		fn := w.handleFrame
 		protoErr, _ := constantInt(p.Const(ws, "CloseProtocolError"))
@@ -485,6 +490,65 @@ func runC15(c *Ctx) {
 			}
 		}
 		c.check(n > 0 && bad == "", fn, "violation response", fn.Pos(), fmt.Sprintf("all %d erroring paths of an active stream queue Close(1002) and stop application writes", n), bad)
+		// the violation is reported in every state: no path on which a check (verifyFrame / the handlers) returned an error
+		// ends in a nil return
+		swallowed := ""
+		for _, path := range paths {
+			ret := path.Ret()
+			if ret == nil {
+				continue
+			}
+			pi := newPathIndex(path)
+			if pi.nilnessAt(ret.Results[0], len(pi.instrs)-1, false) != "nil" {
+				continue
+			}
+			for _, l := range path.Lits {
+				x, eq, ok := l.nilTest()
+				if !ok || eq {
+					continue
+				}
+				for _, leaf := range phiLeaves(resolveCell(path.eval(x, l.At))) {
+					if call, ok := resolveCell(leaf).(*ssa.Call); ok && isCallToFn(call, w.verifyFrame, w.handleControl, w.handleData) {
+						swallowed = path.String()
+					}
+				}
+			}
+		}
+		c.check(swallowed == "", fn, "violation reported", fn.Pos(), "an error found by the checks is returned on every path", "handleFrame returns nil on a path on which a check reported a violation ("+swallowed+"): after the client started closing (or after a first violation) violating frames are delivered as data / to the control callback")
+	}
+	// who may report a framing violation: only the checks under handleFrame, so that the response above applies. The
+	// decoder (or any other layer) returning one of these errors by-passes the Close(1002) / no-more-writes reaction.
+	{
+		allowed := map[*ssa.Function]bool{w.verifyFrame: true, w.handleControl: true, w.handleData: true, w.handleFrame: true}
+		violationErrs := []string{"ErrNonZeroReservedBits", "ErrReservedOpcode", "ErrMaskedFramesFromServer", "ErrUnmaskedFramesFromClient", "ErrInvalidControlFrame", "ErrControlFrameTooBig"}
+		n := 0
+		for _, name := range violationErrs {
+			g := p.GlobalVar(ws, name)
+			for _, fn := range p.Funcs {
+				if pk := fnTypesPkg(fn); pk == nil || pk.Path() != modPath+"/codec/websocket" {
+					continue
+				}
+				top := fn
+				for top.Parent() != nil {
+					top = top.Parent()
+				}
+				if top.Name() == "init" || strings.HasPrefix(fnName(top), "(*codec/websocket.Mock") {
+					continue
+				}
+				eachInstr(fn, func(in ssa.Instruction) {
+					u, ok := in.(*ssa.UnOp)
+					if !ok || !isLoadOfGlobal(u, g) {
+						return
+					}
+					n++
+					inTree := allowed[top] || allCallersSatisfy(p, top, 2, func(caller *ssa.Function) bool { return allowed[caller] })
+					c.check(inTree, fn, "reports "+name, in.Pos(), "raised by the checks under handleFrame", name+" is raised outside the checks handleFrame runs: the error reaches the reader but the Close(1002) / refuse-further-writes reaction of handleFrame is by-passed")
+				})
+			}
+		}
+		if n == 0 {
+			c.bad(w.handleFrame, "violation errors", w.handleFrame.Pos(), "no framing-violation error is raised anywhere (anchor moved)")
+		}
 	}
 
 	// ------------------------------------------------------------------------------------------------ R4
